@@ -105,8 +105,8 @@ def hook(cfg, tshim, mode):
 
 
 def gen(rng, pinned_sh=None):
-    eng = rng.choice(["basic", "basic", "langevin", "xl", "ksa", "xl_damp", "sh_model", "exc_basic"])
-    real = rng.random() < 0.03 and eng not in ("sh_model", "exc_basic")
+    eng = rng.choice(["basic", "basic", "langevin", "xl", "ksa", "xl_damp", "sh_model", "exc_basic", "exc_xl", "xl_esmd"])
+    real = rng.random() < 0.03 and eng not in ("sh_model", "exc_basic", "exc_xl", "xl_esmd")
     if pinned_sh is not None:
         eng, real = "sh", True
     cfg = {"engine": eng, "driver": "real" if real else "stub"}
@@ -137,9 +137,9 @@ def gen(rng, pinned_sh=None):
         cfg["initial_state"] = [rng.randint(1, cfg["n_states"]) for _ in cfg["batch"]]
         cfg.pop("extra_pad", None)
         cfg.pop("pad_coords", None)
-    if eng == "exc_basic":
+    if eng in ("exc_basic", "exc_xl", "xl_esmd"):
         cfg["n_states"] = rng.randint(1, 3)
-        cfg["active_state"] = rng.randint(0, cfg["n_states"])
+        cfg["active_state"] = rng.randint(0 if eng != "xl_esmd" else 1, cfg["n_states"])
     cfg["dt"] = rng.choice([0.25, 0.5]) if eng not in ("sh", "sh_model") else 0.2
     cfg["temp"] = rng.choice([0.0, 10.0, 300.0, 300.0, 1000.0])
     if pinned_sh is not None:
@@ -147,7 +147,7 @@ def gen(rng, pinned_sh=None):
     cfg["seed"] = rng.randrange(1 << 20)
     if eng in ("langevin", "xl_damp"):
         cfg["damp"] = rng.choice([5.0, 50.0])
-    if eng in ("xl", "xl_damp", "ksa"):
+    if eng in ("xl", "xl_damp", "ksa", "exc_xl", "xl_esmd"):
         cfg["k"] = rng.randint(3, 9)
     nmol = len(cfg["batch"])
     cfg["out"] = {"molid": list(range(nmol)), "print": 0, "ckpt": 0, "xyz": 0, "h5": {"data": 1, "coordinates": 1, "velocities": 1, "forces": 0}}
